@@ -15,7 +15,9 @@ EXPLANATION = (
     "matched answers, classifies an NS rrset as a referral (authority section, empty answer) exactly when the first record is NS "
     "and the query type is neither NS nor ANY, and otherwise puts the records in the answer section; (G4) the wildcard climb of "
     "inner_lookup_wildcard to *.parent must be guarded by a test that the intermediate name does not exist (RFC 4592 3.3.1 "
-    "closest encloser) - absent today: known finding F6.")
+    "closest encloser) - absent today: known finding F6; (G5) InnerInMemory::find_cover, the source of every NSEC3 record the server "
+    "offers as covering a hashed name, selects the greatest owner hash below the name and falls back to the greatest owner hash of "
+    "the chain (the only record whose interval wraps around).")
 NOT_DECIDED = "Answer contents for all zones and queries; AA semantics on referrals; additional-section processing."
 ASSUMPTIONS = ["FULL feature configuration", "BTreeMap range/get semantics"]
 
